@@ -10,4 +10,10 @@ CLAIMS = {
     },
 }
 
+CLAIMS["C08"] = {
+    "text": "Decides the side conditions under which cleanup may delete something, as must-pass-through / table obligations over cleanup.py: definitions are registered only for non-input predicates (closed-world guard); per-predicate implication sets are combined over ALL defining rules by intersection only; a mapping exists only if every body argument occurs in the head, with the literal's own sign; closure composes only through a positive middle literal with composed argument maps; the subsumption test answers True only for a positive implier, never for a negated copy of the same atom, with matching mapping sign and position-wise equal arguments (path query with loop marks); implier and implied come from one scope and the implied one is removed; truth tables of true()/false() over sign x value; literals/elements/statements are dropped only when constant true / condition constant false / body constant false. It does not decide that the computed implications are semantically valid for every program (that needs solving).",
+    "technique": "must-pass-through guards and enum decision tables by path-sensitive abstract interpretation of cleanup.py",
+    "note": NOTE,
+}
+
 NOT_APPLICABLE: dict[str, str] = {}
